@@ -1114,13 +1114,14 @@ pub fn run(ctx: &Ctx) -> Outcome {
     let quick = ctx.tier.is_quick();
     let m = ThreadModel::new(if quick { "threads-q" } else { "threads-t" }, quick, false);
     let m2 = ThreadModel::new(if quick { "threads-mid-q" } else { "threads-mid-t" }, quick, true);
-    let maxd = if quick { 6 } else { 9 };
+    // quick: explicit, machine-independent depths (every step crosses to the second OS thread and back: ~1 ms each)
+    let maxd = if quick { 3 } else { 9 };
     let rep = search(ctx, &m, "C20", maxd, ctx.tier.budget_s() * 0.4, true);
-    let rep2 = search(ctx, &m2, "C20", maxd, ctx.tier.budget_s() * 0.8, true);
+    let rep2 = search(ctx, &m2, "C20", if quick { 2 } else { maxd }, ctx.tier.budget_s() * 0.8, true);
     let m3 = IdleModel::new("threads-idle", false);
     let m4 = IdleModel::new("threads-idle-mid", true);
-    let rep3 = search(ctx, &m3, "C20", if quick { 9 } else { 12 }, ctx.tier.budget_s() * 1.05, true);
-    let rep4 = search(ctx, &m4, "C20", if quick { 9 } else { 12 }, ctx.tier.budget_s() * 1.2, true);
+    let rep3 = search(ctx, &m3, "C20", if quick { 7 } else { 12 }, ctx.tier.budget_s() * 1.05, true);
+    let rep4 = search(ctx, &m4, "C20", if quick { 6 } else { 12 }, ctx.tier.budget_s() * 1.2, true);
     fill_outcome(&mut out, &[(m.name, &rep), (m2.name, &rep2), (m3.name, &rep3), (m4.name, &rep4)]);
     out.set("exhaustive", json!(false));
     out.set("alphabet", json!({"events": m.events.iter().map(|e| format!("{:?}", e)).collect::<Vec<_>>(), "operations_injected_inside_poll": m.inject_menu.iter().map(|e| format!("{:?}", e)).collect::<Vec<_>>()}));
